@@ -93,9 +93,27 @@ class IterUnit(Unit):
     def skip_verus(self, ctx, prog):
         if not prog.variants:
             return 'enum without variants (Verus: "datatype must have at least one non-recursive variant"); decided by the Kani twins'
+    def blackbox(self, prog):
+        """True when the generated iterator no longer has the usize fields idx / back_idx that the contracts and the state-based twins
+        are written over (a refactored state representation): the public-API twins stand in."""
+        import re, os
+        if os.environ.get('VX_FORCE_BLACKBOX'):     # self-test switch: run the public-API twins on an unchanged tree
+            return True
+        t = getattr(self, 'item_text', {}).get(prog.name)
+        if not t:
+            return False
+        m = re.search(r'struct\s+%sIter\b[^{;]*\{([^}]*)\}' % re.escape(prog.name), t)
+        if not m:
+            return True
+        body = m.group(1)
+        return not (re.search(r'\bidx\s*:\s*usize\b', body) and re.search(r'\bback_idx\s*:\s*usize\b', body))
     def kani_module(self, ctx, prog):
+        if self.blackbox(prog):
+            return spec_iter.kani_blackbox(prog)
         return spec_iter.kani_module(prog)
     def kani_harnesses(self, ctx, prog):
+        if self.blackbox(prog):
+            return [('bb_history', 'history')]
         ops = spec_iter.OPS
         if ctx.pid == 'C04':
             ops = [o for o in ops if o in ('next', 'next_back', 'iter', 'get', 'nth_back')]
@@ -105,6 +123,28 @@ class IterUnit(Unit):
     def twin_of(self, ctx, prog, fn):
         return TWIN.get(op_of(fn))
     def make_replay(self, ctx, prog, fn, test):
+        if fn.endswith('history'):
+            # values in the order of the kani::any() calls: op (1 byte), then n (8 bytes) for nth / nth_back
+            vals = [run_kani.le_int(v) for v in test['values']]
+            small = len(prog.enabled()) <= 16
+            hist, i = [], 0
+            while i < len(vals) and len(hist) < 4:
+                op = vals[i]; i += 1
+                if op == 0:
+                    hist.append(('next', None))
+                elif op == 1:
+                    hist.append(('next_back', None))
+                elif op == 2:
+                    if i >= len(vals): break
+                    hist.append(('nth', vals[i])); i += 1
+                elif small:
+                    if i >= len(vals): break
+                    hist.append(('nth_back', vals[i])); i += 1
+                else:
+                    hist.append(('next_back', None))
+            if not hist:
+                return None
+            return replay_main(prog, hist, 'len', 0), {'history': ['%s(%s)' % (k, '' if x is None else x) for k, x in hist]}
         op = op_of(fn)
         vals = [run_kani.le_int(v) for v in test['values']]
         N = len(prog.enabled())
